@@ -19,6 +19,8 @@ import (
 	"encoding/base64"
 	"fmt"
 	"maps"
+	"math"
+	"strconv"
 	"strings"
 	"sync"
 
@@ -78,7 +80,7 @@ func ToCatalog(rows []any, ident string, identRight string, joinExpr sqlparser.E
 				return nil, err
 			}
 			// length-prefixed so that adjacent values cannot run into each other
-			value := fmt.Sprintf("%v", reader)
+			value := joinKeyText(reader)
 			buffer.WriteString(fmt.Sprintf("%d:%s-", len(value), value))
 			mapper[mappedColumns[column]] = reader
 		}
@@ -93,6 +95,25 @@ func ToCatalog(rows []any, ident string, identRight string, joinExpr sqlparser.E
 		hashedTable.Rows[hash] = append(hashedTable.Rows[hash], &r)
 	}
 	return hashedTable, nil
+}
+
+// joinKeyText renders a key value for hashing. Equal numbers must hash alike
+// whatever their Go type: %v prints float64(1000000) as 1e+06 but int(1000000)
+// as 1000000, so whole floating point numbers are printed as integers
+func joinKeyText(value any) string {
+	var float float64
+	switch t := value.(type) {
+	case float64:
+		float = t
+	case float32:
+		float = float64(t)
+	default:
+		return fmt.Sprintf("%v", value)
+	}
+	if float == math.Trunc(float) && math.Abs(float) < 1<<63 {
+		return strconv.FormatInt(int64(float), 10)
+	}
+	return strconv.FormatFloat(float, 'g', -1, 64)
 }
 
 func NewJoin(query *Query, left, right []any, leftIdent, rightIdent string, into string, joinExpr sqlparser.Expr, joinType sqlparser.JoinType) *Join {
